@@ -58,8 +58,9 @@ theorem coord_opposite (cs : CS) (hcs : cs.ok) :
 /-- one voxel step along matrix axis `a` moves the coordinate by exactly one voxel size along the
 Cartesian axis that the axis map assigns to `a` (sign by reversal) and not at all along the others.
 (`cs.ok` is the guard under which the code computes a voxel size at all: a zero extent raises ZeroDivisionError in
-`Image.voxel_size`, whereas ℚ totalises x / 0 = 0; the algebra itself does not need it.) -/
-theorem coord_step (cs : CS) (_hcs : cs.ok) (v : List Rat) (a : Nat) (ha : a < v.length) :
+`Image.voxel_size`, whereas ℚ totalises x / 0 = 0; `v.length = dim` is the guard under which numpy does not raise
+IndexError — the model's `listGetD` would read a missing component as 0; the algebra itself needs neither.) -/
+theorem coord_step (cs : CS) (_hcs : cs.ok) (v : List Rat) (_hv : v.length = cs.dim.toNat) (a : Nat) (ha : a < v.length) :
     ∃ am, axisMap cs.dim = .ok am ∧
       (do let c1 ← cs.coordinate (stepAt v a); let c0 ← cs.coordinate v
           pure (List.zipWith (· - ·) c1 c0)) =
@@ -85,8 +86,10 @@ theorem center_roundtrip (cs : CS) (hcs : cs.ok) (v : List Int) (hv : v.length =
   exact voxel_of_inside cs hcs v _ hv (by simp [hv]) (by
     intro x hx; rw [List.mem_replicate] at hx; rw [hx.2]; constructor <;> norm_num)
 
-/-- batch form (numpy evaluates row by row): a list of voxel centres of any length converts back
-to the list of voxels. -/
+/-- batch form. NOTE (label): in the MODEL the batch functions are `mapM` of the single-point functions BY DEFINITION, so this
+theorem is the single-point round trip lifted over a list of any length — it does not establish that numpy's vectorised
+evaluation equals the row-by-row one; "batch = map of single" for the implementation is OBSERVED (oracle clause `batch`,
+incl. N = 1 and 1-d images, and the batch correspondence). -/
 theorem batch_roundtrip (cs : CS) (hcs : cs.ok) (vs : List (List Int))
     (hv : ∀ v ∈ vs, v.length = cs.dim.toNat) :
     (cs.coordinateB (vs.map centerOf) >>= cs.voxelB) = .ok vs := by
@@ -245,7 +248,7 @@ theorem min_max_coordinate (cs : CS) (hcs : cs.ok) :
 
 /-- every position of the image (`0 ≤ v_p ≤ N_p` on every matrix axis, fractional allowed) has its coordinate inside
 that box, component by component. -/
-theorem voxel_in_domain (cs : CS) (hcs : cs.ok) (v : List Rat)
+theorem voxel_in_domain (cs : CS) (hcs : cs.ok) (v : List Rat) (_hlen : v.length = cs.dim.toNat)
     (hv : ∀ p, p < cs.dim.toNat → 0 ≤ listGetD v p 0 ∧ listGetD v p 0 ≤ ((listGetD cs.shape p 0 : Nat) : Rat)) :
     ∃ am, axisMap cs.dim = .ok am ∧ ∀ q ∈ am.zipIdx,
       (if q.1.2 then listGetD cs.origin q.2 0 - listGetD cs.dims q.1.1 0 else listGetD cs.origin q.2 0) ≤ coordAx cs v q.2 q.1 ∧
@@ -306,7 +309,8 @@ theorem reset_origin_default (cs cs' : CS) (h : cs.applyOp .resetOrigin = .ok cs
 /-- SUB-SELECTION OF TYPED BATCHES (`VoxelCenterArray.__getitem__` and its siblings): selecting rows of a batch of voxel
 centres with an int, an index array or a boolean mask yields the ELEMENT class for an int key and the SAME array class
 otherwise, and the selected rows are still the centres of the selected voxels (they are passed through the constructor
-again, which is idempotent on centres); and selecting commutes with converting: rows selected from the converted batch =
+again, which is idempotent on centres); and selecting commutes with converting (NOTE (label): this third conjunct is the
+naturality of row selection, true for ANY row-wise function, not a fact about the coordinate system): rows selected from the converted batch =
 the selected rows converted — the same voxel centre has the same coordinate whether it is converted alone, in the full
 batch or in a sub-batch. -/
 theorem typed_subselection (cs : CS) (vs : List (List Int)) (key : GetKey) :
